@@ -1,0 +1,53 @@
+//go:build verif
+
+package executor
+
+// Add-only export for the runtime verification harness (build tag `verif`): like VerifNewState,
+// but the sink can refuse a call, which the executor sees as a failed Send to the agent (agent
+// restarting, HTTP time-out). Drives the error paths of performStatusUpdate / sendFailedTasks.
+
+import (
+	"context"
+	"expvar"
+
+	"github.com/AliceO2Group/Control/executor/executable"
+	mesos "github.com/mesos/mesos-go/api/v1/lib"
+	"github.com/mesos/mesos-go/api/v1/lib/executor"
+	"github.com/mesos/mesos-go/api/v1/lib/executor/calls"
+)
+
+// VerifNewFaultyState is VerifNewState with a sink whose error becomes the error of cli.Send.
+func VerifNewFaultyState(sink func(*executor.Call) error, executorInfo mesos.ExecutorInfo, agentInfo mesos.AgentInfo) *VerifState {
+	v := &VerifState{
+		state: &internalState{
+			cli: calls.SenderFunc(func(_ context.Context, r calls.Request) (mesos.Response, error) {
+				return nil, sink(r.Call())
+			}),
+			executor:       executorInfo,
+			agent:          agentInfo,
+			unackedTasks:   make(map[mesos.TaskID]mesos.TaskInfo),
+			unackedUpdates: make(map[string]executor.Call_Update),
+			failedTasks:    make(map[mesos.TaskID]mesos.TaskStatus),
+			killedTasks:    make(map[mesos.TaskID]mesos.TaskStatus),
+			activeTasks:    make(map[mesos.TaskID]executable.Task),
+			statusCh:       make(chan mesos.TaskStatus, 1024),
+			messageCh:      make(chan []byte),
+		},
+		events: make(chan func()),
+		quit:   make(chan struct{}),
+		done:   make(chan struct{}),
+	}
+	go v.loop()
+	return v
+}
+
+func init() {
+	expvar.Publish("verif.executor.faulty", expvar.Func(func() interface{} {
+		return func(sink func(*executor.Call) error, e mesos.ExecutorInfo, a mesos.AgentInfo) (
+			launch func(mesos.TaskInfo) error, kill func(mesos.TaskID) error, message func([]byte) error,
+			active func(mesos.TaskID) bool, stop func()) {
+			v := VerifNewFaultyState(sink, e, a)
+			return v.VerifHandleLaunch, v.VerifHandleKill, v.VerifHandleMessage, v.VerifIsActive, v.VerifStop
+		}
+	}))
+}
